@@ -150,7 +150,9 @@ func F32Bits(t *rapid.T, finiteOnly, noSNaN bool, label string) uint32 {
 	return b
 }
 
-var strAlphabet = []string{"a", "b", "Z", "0", "7", "_", "-", ".", "+", " ", "\"", "'", "\\", ",", ":", "{", "}", "[", "]", ";", "\x00", "\n", "\t", "é", "世", "§", "😀", "\xff", "\xc3", "true", "1b", "1.5", "e5"}
+var strAlphabet = []string{"a", "b", "Z", "0", "7", "_", "-", ".", "+", " ", "\"", "'", "\\", ",", ":", "{", "}", "[", "]", ";", "\x00", "\n", "\t", "é", "世", "§", "😀", "\xff", "\xc3", "true", "1b", "1.5", "e5",
+	// Java's modified UTF-8: surrogate halves encoded as 3 bytes each, whole and cut short (a string may END in any of these)
+	"\xed\xa0\x80", "\xed\xb0\x80", "\xed\xa0\x80\xed\xb0\x80", "\xed\xa0\x80\xed\xb0", "\xed\xa0\x80\xed", "\xed\xa0", "\xed", "\xc0\x80", "\xf0\x9f\x98", "\xe4\xb8"}
 var textAlphabet = []string{"a", "b", "Z", "0", "7", "_", "-", ".", "+", " ", "\"", "'", "\\", ",", ":", "{", "}", "[", "]", ";", "é", "世", "§", "true", "false", "1b", "1.5", "e5", "1", "L", "f"}
 
 // Str draws string bytes (0..40 bytes, rarely 32767).
